@@ -3,6 +3,7 @@ package props
 import (
 	"context"
 	"fmt"
+	"strings"
 	"testing"
 	"testing/synctest"
 	"time"
@@ -593,6 +594,68 @@ func TestC09Regress(t *testing.T) {
 		evid.For("C09").Case(true, "regress|"+rc.name, "regression-replay")
 		if msg != "" {
 			failCase(t, "C09", rc.c, "%s: %s", rc.name, msg)
+		}
+	}
+}
+
+// TestC09NetConnClose: the same bound for the net.Conn adapter's Close, which is a Close of the
+// connection: with one of the adapter's own calls in flight - a Write the peer does not take, a
+// Read nothing arrives for, or both - nc.Close returns within Close's bound (about 10 s), and
+// the calls in flight return once it has. Enumerated: role x what is in flight x what the peer does
+// with the Close frame.
+func TestC09NetConnClose(t *testing.T) {
+	rec := evid.For("C09")
+	for _, client := range []bool{false, true} {
+		for _, inflight := range []string{"write", "read", "write+read", "none"} {
+			for _, peer := range []string{"takes-nothing", "echoes"} {
+				desc := fmt.Sprintf("netconnclose|client=%v|%s|%s", client, inflight, peer)
+				var msg string
+				synctest.Test(t, func(t *testing.T) {
+					e := newEnv(t)
+					defer e.Teardown()
+					lc, err := e.open(connSpec{Client: client})
+					if err != nil {
+						msg = "handshake: " + err.Error()
+						return
+					}
+					p := lc.Peer
+					p.onFrame = func(f ref.Frame) {
+						if f.Opcode == ref.OpClose && peer == "echoes" {
+							p.send(ref.Frame{Fin: true, Opcode: ref.OpClose, Payload: f.Payload})
+						}
+					}
+					p.start(e)
+					nc := websocket.NetConn(context.Background(), lc.C, websocket.MessageBinary)
+					var calls []<-chan struct{}
+					if strings.Contains(inflight, "write") {
+						lc.End.SetInBudget(3)
+						calls = append(calls, e.Call(func() { nc.Write(make([]byte, 9000)) }))
+					}
+					if strings.Contains(inflight, "read") {
+						calls = append(calls, e.Call(func() { nc.Read(make([]byte, 16)) }))
+					}
+					synctest.Wait()
+					if peer == "echoes" {
+						lc.End.SetInBudget(-1)
+					}
+					start := time.Now()
+					cd := e.Call(func() { nc.Close() })
+					if !within(cd, 11*time.Second) {
+						msg = fmt.Sprintf("NetConn's Close did not return within 11 s (calls in flight: %s; the peer %s)", inflight, peer)
+						return
+					}
+					for _, d := range calls {
+						if !within(d, 2*time.Second) {
+							msg = fmt.Sprintf("a NetConn call that was in flight is still blocked 2 s after Close returned (Close took %v)", time.Since(start))
+							return
+						}
+					}
+				})
+				rec.Case(true, desc, "netconn-close-with-its-own-calls-in-flight")
+				if msg != "" {
+					failCase(t, "C09", desc, "%s", msg)
+				}
+			}
 		}
 	}
 }
